@@ -6,18 +6,27 @@ import wv
 HL = {0: 20, 1: 16, 2: 32}
 
 
-def exe():
+def exe(mid=False):
+    if mid:     # chunks of 256 blocks (4 KiB), hash windows of 16 KiB: offsets, counters and per-refill arithmetic beyond one byte
+        return wv.build("h_file", ["hash", "aes", "pipe", "kernel"], ["h_file.cpp"], ["-DWENCRY_VERIF_HBUF_SZ=256", "-DWENCRY_VERIF_BUF_SZ=256"])
     return wv.build("h_file", ["hash", "aes", "pipe", "kernel"], ["h_file.cpp"], ["-DWENCRY_VERIF_HBUF_SZ=1", "-DWENCRY_VERIF_BUF_SZ=2"])
 
 
 def collect(res, pid, jobs):
-    x = exe()
+    """jobs: argument lists of h_file; a job whose first element is "mid" runs on the build with mid-size constants."""
+    x0 = exe()
+    xm = exe(True) if any(j and j[0] == "mid" for j in jobs) else None
 
     def one(j):
         k, args = j
+        x, env = x0, None
+        if args and args[0] == "mid":
+            x, args, env = xm, args[1:], {"WV_STRIDE": "257"}
+        elif args and str(args[0]).startswith("stride"):      # small constants, a file of several hundred bytes, sampled body positions
+            env, args = {"WV_STRIDE": str(args[0])[6:]}, args[1:]
         p = os.path.join(wv.RUN, pid, "rec%d.ndjson" % k)
         os.makedirs(os.path.dirname(p), exist_ok=True)
-        r = wv.run_harness(x, args, p, timeout=1500)
+        r = wv.run_harness(x, args, p, timeout=1500, env=env)
         evs = wv.read_ndjson(p)
         return args, r, evs
     with cf.ThreadPoolExecutor(10) as ex:
@@ -30,7 +39,7 @@ def collect(res, pid, jobs):
         evs = list(last.values())
         ended = [e for e in evs if e["e"] == "end"]
         if r.returncode != 0 or not ended:
-            res.violation("driver h_file %s did not complete (rc=%s): %s" % (args, r.returncode, r.stderr.decode(errors="replace")[-800:]), {"cmd": [x] + [str(a) for a in args]})
+            res.violation("driver h_file %s did not complete (rc=%s): %s" % (args, r.returncode, r.stderr.decode(errors="replace")[-800:]), {"cmd": ["h_file"] + [str(a) for a in args]})
         for e in evs:
             if e["e"] == "end":
                 continue
